@@ -21,6 +21,7 @@ type PlainCmd struct {
 	SW               uint16 // status the chip answered (inside DO'99' when Secured)
 	RespLen          int    // octets of plain response data
 	CSSC             []byte // chip SSC after the response was produced (nil when not Secured)
+	Index            int    // 0-based index of the command among all commands the chip received
 }
 
 // ReadRec is one READ BINARY the chip executed.
@@ -222,6 +223,28 @@ func (c *Chip) Reset() {
 	c.truth.Resets++
 }
 
+// InstallSM installs a secure messaging session with the given keys and counter directly (as if
+// an access-control protocol had just completed) and grants access. cipher is "3DES" or "AES".
+func (c *Chip) InstallSM(cipher string, ksEnc, ksMac, ssc []byte) error {
+	c.mu.Lock()
+	defer c.mu.Unlock()
+	sess, err := newSMSession(CipherAlg(cipher), ksEnc, ksMac, ssc, "INSTALLED")
+	if err != nil {
+		return err
+	}
+	c.setSM(sess)
+	c.access = true
+	return nil
+}
+
+// setSM makes sess the current session (nil deletes it).
+func (c *Chip) setSM(sess *smSession) {
+	if sess != nil {
+		sess.do85PI = c.cfg.Transport.DO85PaddingIndicator
+	}
+	c.sm = sess
+}
+
 // ClearTruth empties the ground-truth log (state flags are kept in step with the chip).
 func (c *Chip) ClearTruth() {
 	c.mu.Lock()
@@ -309,7 +332,7 @@ func (c *Chip) Process(raw []byte) (resp []byte) {
 		return sw(nil, SWWrongLength)
 	}
 	if cmd.Extended && !c.cfg.Transport.ExtendedLength {
-		if c.sm != nil {
+		if c.sm != nil && !c.cfg.Transport.LengthErrorKeepsSession {
 			c.smFail(idx, SWWrongLength, "extended length not supported (session deleted)")
 		}
 		return sw(nil, SWWrongLength)
@@ -339,7 +362,7 @@ func (c *Chip) Process(raw []byte) (resp []byte) {
 			return sw(nil, swv)
 		}
 		res := c.dispatch(plain)
-		rec := PlainCmd{CLA: plain.CLA, INS: plain.INS, P1: plain.P1, P2: plain.P2, Data: clone(plain.Data), Ne: plain.Ne, HasLe: plain.HasLe, Secured: true}
+		rec := PlainCmd{CLA: plain.CLA, INS: plain.INS, P1: plain.P1, P2: plain.P2, Data: clone(plain.Data), Ne: plain.Ne, HasLe: plain.HasLe, Secured: true, Index: idx}
 		// does the protected response fit into the response field the terminal asked for?
 		res = c.fitSecured(cmd, plain, res)
 		out := c.sm.wrap(plain, res.data, res.sw)
@@ -363,7 +386,7 @@ func (c *Chip) Process(raw []byte) (resp []byte) {
 	if !cmd.Extended && len(res.data) > 256 && !c.cfg.Transport.AllowOversizeShortResponse {
 		res = status(SWWrongLength)
 	}
-	c.truth.Accepted = append(c.truth.Accepted, PlainCmd{CLA: cmd.CLA, INS: cmd.INS, P1: cmd.P1, P2: cmd.P2, Data: clone(cmd.Data), Ne: cmd.Ne, HasLe: cmd.HasLe, SW: res.sw, RespLen: len(res.data)})
+	c.truth.Accepted = append(c.truth.Accepted, PlainCmd{CLA: cmd.CLA, INS: cmd.INS, P1: cmd.P1, P2: cmd.P2, Data: clone(cmd.Data), Ne: cmd.Ne, HasLe: cmd.HasLe, SW: res.sw, RespLen: len(res.data), Index: idx})
 	if res.after != nil {
 		res.after()
 	}
@@ -408,6 +431,11 @@ func (c *Chip) fitSecured(outer, plain *Command, res result) result {
 
 // dispatch executes a plain command.
 func (c *Chip) dispatch(cmd *Command) result {
+	if c.cfg.Handler != nil {
+		if data, swv, ok := c.cfg.Handler(PlainCmd{CLA: cmd.CLA, INS: cmd.INS, P1: cmd.P1, P2: cmd.P2, Data: clone(cmd.Data), Ne: cmd.Ne, HasLe: cmd.HasLe, Secured: c.sm != nil}); ok {
+			return result{data: data, sw: swv}
+		}
+	}
 	chaining := cmd.CLA&0x10 != 0
 	if chaining && cmd.INS != 0x86 {
 		return status(SWChainingUnsupported)
